@@ -5,6 +5,9 @@ permutation / batch independence)."""
 import hashlib
 import json
 import math
+import signal
+import subprocess
+import sys
 import warnings
 
 import numpy as np
@@ -16,13 +19,19 @@ HEADER = "From Coq Require Import ZArith List.\nImport ListNotations.\nFrom IBL.
 NAN_CODE = 1 << 40
 BAD = 10 ** 15          # marker for "not an integer / not the expected quotient" in the flat encoding
 TRUSTED = [
-    "Coq 8.16.1 kernel + vm_compute (no native_compute); all C14 theorems: Closed under the global context",
+    "Coq 8.16.1 kernel + vm_compute (no native_compute); 18 C14 theorems closed under the global context; "
+    "C14_ratio_test_float64 (Flocq 4.1 binary64 model of the division in the <= 1.5 test) uses the standard "
+    "library's real-number axioms (sig_forall_dec, sig_not_dec, functional_extensionality_dep, classic)",
     "hand-written model coq/C14/Model.v of ibldsp.waveforms.compute_spike_features, find_peak, pick_maxima, "
     "weights_spk_ch (integer-valued samples, NaN as None, 2-D/3-D input), tied to /repo/src by this run's "
     "correspondence on all 21 data-frame columns and on the helpers' outputs",
-    "float facts used by the model: integer / dyadic samples below 2^40 (2^24 for float32 input) and their "
-    "negations/differences are exact; |a/b| <= 1.5 in float64/float32 agrees with 2|a| <= 3|b| for such samples; "
-    "quotient columns are compared to 1e-9 relative (1e-6 for float32 input), everything else exactly",
+    "float facts used by the model and only validated by the correspondence: integer / dyadic samples below 2^40 "
+    "(2^24 for float32 input) and their negations/differences/halves are exact (so the half-peak comparison has "
+    "the exact sign); the float32 form of the <= 1.5 test agrees with 2|a| <= 3|b| (the float64 form is proved: "
+    "C14_ratio_test_float64); quotient columns are compared to 1e-9 relative (1e-6 for float32 input), "
+    "everything else exactly",
+    "nothing is taken from the implementation as data by the model: its inputs are the samples, k and the input rank; "
+    "k = int(round(recovery_duration_ms*fs/1000)) is recomputed by the harness with Python's round",
     "harness/pC14.py generators, canonicaliser and oracle; k = int(round(recovery_duration_ms*fs/1000)) "
     "computed by the harness with Python's own round",
     "extraction (Require Extraction, ExtrOcamlBasic only), harness/driver.ml, ocamlfind ocamlopt; a sample of "
@@ -50,31 +59,105 @@ def to_array(batch):
                     dtype=np.float64)
 
 
+class ImplFault(Exception):
+    """The implementation did something no caller can live with: an exception other than the documented
+    ValueError, a malformed result (None, wrong type / shape / dtype), a modified input, a hang."""
+
+
+class _Timeout(BaseException):
+    pass
+
+
+CALL_LIMIT_S = 60.0          # a normal call takes milliseconds
+_STATE = {"hung": False}
+
+
+def _on_alarm(signum, frame):
+    raise _Timeout()
+
+
+def guarded(fname, *args, **kw):
+    """Call ibldsp.waveforms.<fname> with a wall-clock limit; every way of leaving the call is caught.
+    Returns ("ok", value) or ("exc", exception instance)."""
+    if _STATE["hung"]:
+        return "exc", ImplFault("not called: an earlier call of the implementation did not return within %ds"
+                                % CALL_LIMIT_S)
+    try:
+        from ibldsp import waveforms
+        fn = getattr(waveforms, fname)
+    except BaseException as e:      # noqa
+        return "exc", ImplFault("cannot import ibldsp.waveforms.%s: %r" % (fname, e))
+    old = signal.signal(signal.SIGALRM, _on_alarm)
+    signal.setitimer(signal.ITIMER_REAL, CALL_LIMIT_S)
+    try:
+        with warnings.catch_warnings():
+            warnings.simplefilter("ignore")
+            with np.errstate(all="ignore"):
+                return "ok", fn(*args, **kw)
+    except _Timeout:
+        _STATE["hung"] = True
+        return "exc", ImplFault("%s did not return within %ds" % (fname, CALL_LIMIT_S))
+    except Exception as e:      # noqa
+        return "exc", e
+    except BaseException as e:      # noqa  (SystemExit, KeyboardInterrupt raised by the code under test, ...)
+        return "exc", ImplFault("%s left through %r" % (fname, e))
+    finally:
+        signal.setitimer(signal.ITIMER_REAL, 0)
+        signal.signal(signal.SIGALRM, old)
+
+
+def input_preserved(before, after):
+    """the documented side effect is NaN -> 0 in place; nothing else may change in the caller's array."""
+    try:
+        if before.shape != after.shape or before.dtype != after.dtype:
+            return False
+        if before.dtype.kind != "f":
+            return bool(np.array_equal(before, after))
+        nan = np.isnan(before)
+        return bool(np.array_equal(before[~nan], after[~nan]) and np.all(np.isnan(after[nan]) | (after[nan] == 0)))
+    except Exception:      # noqa
+        return False
+
+
 def impl_features(arr, fs=None, ms=None, prepared=False, nrows=None):
-    """Run the real compute_spike_features on a copy; returns list of row dicts or the exception.
+    """Run the real compute_spike_features on a copy; returns list of row dicts or an exception instance
+    (ValueError = the documented refusal; ImplFault = anything else that went wrong).
     prepared=True: hand the array over as it is (dtype, layout, rank chosen by the caller)."""
-    from ibldsp import waveforms
     kw = {}
     if fs is not None:
         kw["fs"] = fs
     if ms is not None:
         kw["recovery_duration_ms"] = ms
     a = arr if prepared else np.array(arr, dtype=np.float64, copy=True)
+    before = np.array(a, copy=True)
     nrows = arr.shape[0] if nrows is None else nrows
-    with warnings.catch_warnings():
-        warnings.simplefilter("ignore")
-        with np.errstate(all="ignore"):
-            try:
-                df = waveforms.compute_spike_features(a, **kw)
-            except Exception as e:      # noqa
-                return e
-    missing = [c for c in COLS if c not in df.columns]
-    if missing or len(df) != nrows:
-        return RuntimeError("data frame lacks columns %s or has %d rows for %d waveforms"
-                            % (missing, len(df), nrows))
-    cols = {c: df[c].to_numpy() for c in COLS}
-    return [{c: (int(cols[c][i]) if c in IDX_COLS else float(cols[c][i])) for c in COLS}
-            for i in range(nrows)]
+    st, df = guarded("compute_spike_features", a, **kw)
+    if not input_preserved(before, a):
+        return ImplFault("compute_spike_features modified its input array beyond NaN -> 0")
+    if st == "exc":
+        if isinstance(df, (ValueError, ImplFault)):
+            return df
+        return ImplFault("compute_spike_features raised %r (only ValueError is documented)" % (df,))
+    try:
+        import pandas as pd
+        if not isinstance(df, pd.DataFrame):
+            return ImplFault("compute_spike_features returned %s instead of a DataFrame" % type(df).__name__)
+        missing = [c for c in COLS if c not in df.columns]
+        if missing or len(df) != nrows:
+            return ImplFault("data frame lacks columns %s or has %d rows for %d waveforms"
+                             % (missing, len(df), nrows))
+        cols = {c: np.asarray(df[c].to_numpy()) for c in COLS}
+        for c in COLS:
+            if cols[c].shape != (nrows,):
+                return ImplFault("column %s has shape %s" % (c, cols[c].shape))
+            if c in IDX_COLS and cols[c].dtype.kind not in "iu":
+                return ImplFault("index column %s has dtype %s" % (c, cols[c].dtype))
+            if c not in IDX_COLS and cols[c].dtype.kind not in "fiu":
+                return ImplFault("column %s has dtype %s" % (c, cols[c].dtype))
+        return [{c: (int(cols[c][i]) if c in IDX_COLS else float(cols[c][i])) for c in COLS}
+                for i in range(nrows)]
+    except Exception as e:      # noqa
+        return ImplFault("malformed result of compute_spike_features: %r" % (e,))
 
 
 VARIANTS = ["f64"] * 8 + ["f32", "f32", "i64", "i32", "i16", "fortran", "view", "2d", "dy1", "dy3", "dy10"]
@@ -132,25 +215,46 @@ def impl_variant(batch, variant, fs=None, ms=None):
 
 
 def impl_peaks(batch, variant):
-    """find_peak, pick_maxima, weights_spk_ch of the real module -> flat ints (layout of Run.v mode 1) or exception."""
-    from ibldsp import waveforms
+    """find_peak, pick_maxima, weights_spk_ch of the real module -> dict of plain lists, or an exception instance."""
     if variant.startswith("dy"):
         variant = "f64"
-    try:
-        with warnings.catch_warnings():
-            warnings.simplefilter("ignore")
-            df = waveforms.find_peak(variant_array(batch, variant))
-            im, mv = waveforms.pick_maxima(variant_array(batch, variant))
-            wt = waveforms.weights_spk_ch(variant_array(batch, "f64" if variant == "2d" else variant))
-    except Exception as e:      # noqa
-        return e
     N, C = len(batch), len(batch[0][0])
-    if len(df) != N or im.shape != (N, C) or mv.shape != (N, C) or wt.shape != (N, C):
-        return RuntimeError("find_peak/pick_maxima/weights_spk_ch shapes %s %s %s %s" % (len(df), im.shape, mv.shape, wt.shape))
-    rows = [(int(df["peak_trace_idx"].iloc[i]), int(df["peak_time_idx"].iloc[i]), float(df["peak_val"].iloc[i]))
-            for i in range(N)]
-    return {"peaks": rows, "idx": [[int(v) for v in r] for r in im], "max": [[float(v) for v in r] for r in mv],
-            "weights": [[float(v) for v in r] for r in wt]}
+    try:
+        res = {}
+        for fname, v in (("find_peak", variant), ("pick_maxima", variant),
+                         ("weights_spk_ch", "f64" if variant == "2d" else variant)):
+            a = variant_array(batch, v)
+            before = np.array(a, copy=True)
+            st, val = guarded(fname, a)
+            if st == "exc":
+                return val if isinstance(val, ImplFault) else ImplFault("%s raised %r" % (fname, val))
+            if not input_preserved(before, a):
+                return ImplFault("%s modified its input array beyond NaN -> 0" % fname)
+            res[fname] = val
+        import pandas as pd
+        df = res["find_peak"]
+        if not isinstance(df, pd.DataFrame) or len(df) != N or \
+                any(c not in df.columns for c in ("peak_trace_idx", "peak_time_idx", "peak_val")):
+            return ImplFault("find_peak returned %s" % (type(df).__name__ if not isinstance(df, pd.DataFrame)
+                                                        else "a frame with columns %s, %d rows" % (list(df.columns), len(df))))
+        for c in ("peak_trace_idx", "peak_time_idx"):
+            if np.asarray(df[c].to_numpy()).dtype.kind not in "iu":
+                return ImplFault("find_peak column %s has dtype %s" % (c, df[c].dtype))
+        pm = res["pick_maxima"]
+        if not isinstance(pm, tuple) or len(pm) != 2:
+            return ImplFault("pick_maxima returned %s" % type(pm).__name__)
+        im, mv, wt = pm[0], pm[1], res["weights_spk_ch"]
+        for name, x, kinds in (("pick_maxima indices", im, "iu"), ("pick_maxima values", mv, "fiu"),
+                               ("weights_spk_ch", wt, "fiu")):
+            if not isinstance(x, np.ndarray) or x.shape != (N, C) or x.dtype.kind not in kinds:
+                return ImplFault("%s: %s" % (name, "type %s" % type(x).__name__ if not isinstance(x, np.ndarray)
+                                             else "shape %s dtype %s, expected (%d, %d)" % (x.shape, x.dtype, N, C)))
+        rows = [(int(df["peak_trace_idx"].iloc[i]), int(df["peak_time_idx"].iloc[i]), float(df["peak_val"].iloc[i]))
+                for i in range(N)]
+        return {"peaks": rows, "idx": [[int(v) for v in r] for r in im], "max": [[float(v) for v in r] for r in mv],
+                "weights": [[float(v) for v in r] for r in wt]}
+    except Exception as e:      # noqa
+        return ImplFault("malformed result of find_peak / pick_maxima / weights_spk_ch: %r" % (e,))
 
 
 def enc_peaks(obs):
@@ -254,6 +358,8 @@ def enc_row(r, fs, tol=1e-9):
 
 
 def enc_obs(res, fs, tol=1e-9):
+    if isinstance(res, ImplFault):
+        return [0, 99]
     if isinstance(res, Exception):
         return [0]
     out = [1, len(res)]
@@ -567,6 +673,10 @@ def check_batch(ctx, batch, fs, ms, stats, do_meta=True, variant="f64"):
     ltol = 1e-6 if variant == "f32" else 1e-12
     qtol = variant_tol(variant)
     in_guard = T > k and k >= 0 and all(i["pk0"] >= 1 for i in infos)
+    if isinstance(res, ImplFault):
+        ctx.fail(str(res), dict(desc, batch=batch), {"class": "fault", "clause": "result_type"})
+        stats["raised"] += 1
+        return res
     if isinstance(res, Exception):
         if in_guard and T >= 6:
             # totality: some row of this batch must be to blame — find it
@@ -694,8 +804,48 @@ def check_batch(ctx, batch, fs, ms, stats, do_meta=True, variant="f64"):
     return res
 
 
+CANARY_BATCH = [[[0, 1], [1, 0], [2, 1], [-10, 3], [-3, 1], [4, 0], [6, 1], [3, 0], [1, 0], [0, 0], [0, 1], [0, 0]],
+                [[0, 0], [1, 0], [2, 1], [10, 3], [-3, 1], [-8, 0], [6, 1], [3, 0], [1, 0], [0, 0], [0, 1], [0, 0]]]
+CANARY = """
+import sys, warnings
+import numpy as np
+warnings.simplefilter("ignore")
+from ibldsp import waveforms as W
+a = np.array(%r, dtype=float)
+for f in (W.compute_spike_features, W.find_peak, W.pick_maxima, W.weights_spk_ch):
+    try:
+        f(a.copy())
+    except BaseException:
+        pass
+sys.stdout.write("CANARY-OK\\n")
+""" % (CANARY_BATCH,)
+
+
+def canary():
+    """The public functions once, in a child process: a code change that kills or hangs the interpreter
+    (segfault, os._exit, endless loop) must not take the check down with it.  None = fine."""
+    try:
+        p = subprocess.run([sys.executable, "-c", CANARY], stdout=subprocess.PIPE, stderr=subprocess.STDOUT,
+                           text=True, timeout=300)
+    except subprocess.TimeoutExpired:
+        return "did not finish within 300 s in a child process"
+    except Exception as e:      # noqa
+        return "child process could not be run: %r" % (e,)
+    if "CANARY-OK" in p.stdout:
+        return None
+    return "child process ended with return code %s without completing: %s" % (p.returncode, p.stdout[-400:])
+
+
 def run(ctx):
-    common.proof_obligations(ctx, whitelist=[])
+    common.proof_obligations(ctx, whitelist=sorted(common.STDLIB_AXIOMS))   # only C14_ratio_test_float64 (Flocq/Reals) uses them
+    dead = canary()
+    if dead:
+        ctx.fail("compute_spike_features / find_peak / pick_maxima / weights_spk_ch on a 2x12x2 batch: " + dead,
+                 {"fs": None, "ms": None, "k": 5, "variant": "f64", "batch": CANARY_BATCH, "mode": "canary"},
+                 {"class": "fault", "clause": "process"})
+        return common.finish(ctx, TRUSTED, rule="aborted: the implementation kills or hangs the interpreter",
+                             samples=[{"batch": CANARY_BATCH}], evaluations=0, distinct_nontrivial=0,
+                             extra={"exhaustive": False})
     batches = gen_batches(ctx)
     stats = {k: 0 for k in ("rows", "raised", "swap", "doubly_positive", "peak_last5", "trough_last5",
                             "recovery_fallback", "positive_peak", "channel_tie", "nan", "peak_eq_trough",
@@ -708,6 +858,8 @@ def run(ctx):
     variants = {}
     for bi, (batch, fs, ms, variant) in enumerate(batches):
         res = check_batch(ctx, batch, fs, ms, stats, variant=variant)
+        if _STATE["hung"]:
+            break       # already recorded as a failure with its input; every further call would be refused
         stats["nondefault_fs_or_ms"] += (fs is not None or ms is not None)
         variants[variant] = variants.get(variant, 0) + 1
         n_waveforms += len(batch)
@@ -769,6 +921,10 @@ def replay(ctx, data):
         print(json.dumps(data, indent=1)[:3000])
         return 1
     batch, fs, ms, variant = inp["batch"], inp.get("fs"), inp.get("ms"), inp.get("variant", "f64")
+    if inp.get("mode") == "canary":
+        dead = canary()
+        print("child-process run of the public functions:", dead or "fine")
+        return 1 if dead else 0
     if inp.get("mode") == "peaks":
         obs = impl_peaks(batch, variant)
         print("find_peak / pick_maxima / weights_spk_ch:", repr(obs)[:1500])
